@@ -1,4 +1,6 @@
 import Driver.Util
+import Wee.Model.AttackCache
+import Wee.Model.Cbor
 /-! Request handlers: for every request line the MODEL answer and the SPEC answer ("-" = no oracle). -/
 namespace Driver
 open Wee
@@ -34,6 +36,12 @@ def entryStr : Option TT.Entry → String
 
 def parseInt (s : String) : Int :=
   if s.startsWith "-" then -((s.drop 1).toString.toNat!) else s.toNat!
+
+/-- `cbor=<hex of encodeU32 raw> back=<decodeU32 of it>` as the harness prints the real ciborium round trip -/
+def cborStr (m : Move) : String :=
+  let bytes := Cbor.encodeU32 m
+  let hex := String.ofList (bytes.flatMap fun b => [hexDigit (b.toNat / 16), hexDigit (b.toNat % 16)])
+  s!"cbor={hex} back=" ++ (match Cbor.decodeU32 bytes with | some r => toString r.toNat | Option.none => "none")
 
 structure Out where
   model : String
@@ -102,16 +110,21 @@ def handle (line : String) : Out :=
     let fen := rest 2
     let model := match parseFenM fen with
       | Option.none => "badfen"
-      | some s => joinSp (order.toList.filterMap fun ch =>
+      | some s =>
+        -- the OnceCell cache state machine of `Model/AttackCache` ('k' = clone and continue on the clone)
+        let (_, outs) := order.toList.foldl (fun (st : CachedBoard × List String) ch =>
+          let b := st.1
           match ch with
-          | 'a' => some s!"a{(coloredAttacks s.pieces .white).toNat}"
-          | 'A' => some s!"A{(coloredAttacks s.pieces .black).toNat}"
-          | 'p' => some s!"p{(coloredPawnAttacks s.pieces .white).toNat}"
-          | 'P' => some s!"P{(coloredPawnAttacks s.pieces .black).toNat}"
-          | 'c' => some s!"c{if isCheckB s.pieces .white then 1 else 0}"
-          | 'C' => some s!"C{if isCheckB s.pieces .black then 1 else 0}"
-          | 's' => some s!"s{if s.isCheck then 1 else 0}"
-          | _ => Option.none)
+          | 'a' => let r := b.attacks .white; (r.1, s!"a{r.2.toNat}" :: st.2)
+          | 'A' => let r := b.attacks .black; (r.1, s!"A{r.2.toNat}" :: st.2)
+          | 'p' => let r := b.pawnAttacks .white; (r.1, s!"p{r.2.toNat}" :: st.2)
+          | 'P' => let r := b.pawnAttacks .black; (r.1, s!"P{r.2.toNat}" :: st.2)
+          | 'c' => let r := b.isCheck .white; (r.1, s!"c{if r.2 then 1 else 0}" :: st.2)
+          | 'C' => let r := b.isCheck .black; (r.1, s!"C{if r.2 then 1 else 0}" :: st.2)
+          | 's' => let r := b.isCheck s.turn; (r.1, s!"s{if r.2 then 1 else 0}" :: st.2)
+          | 'k' => ((b.clone).2, st.2)
+          | _ => st) (CachedBoard.new s.pieces, [])
+        joinSp outs.reverse
     let spec := match specOf fen with
       | none => "-"
       | some p => joinSp (order.toList.filterMap fun ch =>
@@ -204,7 +217,7 @@ def handle (line : String) : Out :=
       let m := Move.byCastling c side
       let src := if parts[2]! == "w" then 4 else 60
       let dst := if parts[3]! == "K" then src + 2 else src - 2
-      ⟨s!"{m.toNat} {moveAttrs m}", s!"6 {parts[2]!} {src} {dst} 0 0 0 0 {parts[3]!}"⟩
+      ⟨s!"{m.toNat} {moveAttrs m} {cborStr m}", s!"6 {parts[2]!} {src} {dst} 0 0 0 0 {parts[3]!}"⟩
     else
       let c : Color := if parts[2]! == "w" then .white else .black
       let p := (Piece.ofCode? parts[3]!.toNat!).getD .none
@@ -226,7 +239,7 @@ def handle (line : String) : Out :=
         | "promo" => (0, pr.code, 0)
         | "cappromo" => (cap.code, pr.code, 0)
         | _ => (1, 0, 1)
-      ⟨s!"{m.toNat} {moveAttrs m}", s!"{p.code} {parts[2]!} {o} {d} {ecap} {epr} {eep} {if dbl then 1 else 0} -"⟩
+      ⟨s!"{m.toNat} {moveAttrs m} {cborStr m}", s!"{p.code} {parts[2]!} {o} {d} {ecap} {epr} {eep} {if dbl then 1 else 0} -"⟩
   | "tt" =>
     let tables := parts[1]!.toNat!
     let buckets := parts[2]!.toNat!
